@@ -12,8 +12,9 @@ from .verify import verify_function
 
 
 def load_contracts():
-    for m in ("rounding", "units", "quantity_ops", "registry", "term",
-              "converter", "money", "declare"):
+    for m in ("rounding", "units", "quantity_ops", "term", "registry",
+              "unit_ops", "qty_mul", "converter", "money", "declare",
+              "term_impl"):
         try:
             importlib.import_module("contracts." + m)
         except ModuleNotFoundError as e:
